@@ -93,7 +93,7 @@ End C19.
    evaluator extended with an import table (the five library files of gen/StdLib.v, linked) - a copy of sem/Sem.v's fixpoints
    in which only the import case differs, conservative over it. ---- *)
 From Ucg Require Import std.Sem_Import std.Sem_Import_Lemmas std.StdSpec_Imp std.Imp_Lists std.Imp_Slice std.Imp_Tuples
-     std.Imp_Functional std.Imp_Strings std.Imp_ParseInt std.Imp_Schema std.Imp_SplitOn.
+     std.Imp_Functional std.Imp_Strings std.Imp_ParseInt std.Imp_Schema std.Imp_SplitOn std.Imp_Ops.
 
 Section C19_imports.
   Variable fo : float_ops.
@@ -207,6 +207,71 @@ Section C19_imports.
       exists f, eval_imp fo std_imports f [] (ctx_gen fo E st ord [(b "arg2", VList fo ts); (b "arg1", v)]) all_call
                 = Ok (VBool fo (ref_all fo n v ts)).
   Proof. exact (std_schema_all fo). Qed.
+
+  (* ---- schema.must, tuples.assert_tuple and the `ops` wrappers of std/tuples.ucg and std/lists.ucg (std/Imp_Ops.v).
+     Function-parameter constraints (`m :: false`, `tpl :: {}`) are not part of the ASTs of gen/StdLib.v, so the obligations
+     are stated on the arguments those constraints admit (booleans for must; every value for assert_tuple, where the
+     constraint and the body reject the same values). ---- *)
+  Theorem must_true_is_true : forall E st ord msg,
+      exists f, eval_imp fo std_imports f [] (ctx_gen fo E st ord [(b "arg2", msg); (b "arg1", VBool fo true)]) must_call = Ok (VBool fo true).
+  Proof. exact (std_must_true fo). Qed.
+
+  Theorem must_false_fails : forall E st ord msg,
+      exists f, eval_imp fo std_imports f [] (ctx_gen fo E st ord [(b "arg2", msg); (b "arg1", VBool fo false)]) must_call = Err.
+  Proof. exact (std_must_false fo). Qed.
+
+  Theorem must_false_never_succeeds : forall E st ord msg f v,
+      eval_imp fo std_imports f [] (ctx_gen fo E st ord [(b "arg2", msg); (b "arg1", VBool fo false)]) must_call <> Ok v.
+  Proof. intros E st ord msg. exact (std_must_rejects_never_ok fo E st ord (VBool fo false) msg eq_refl). Qed.
+
+  Theorem assert_tuple_accepts_every_tuple : forall E st ord fs,
+      exists f, eval_imp fo std_imports f [] (ctx_gen fo E st ord [(b "arg", VTuple fo fs)]) assert_tuple_call = Ok (VNull fo).
+  Proof. exact (std_assert_tuple_tuple fo). Qed.
+
+  Theorem assert_tuple_never_accepts_a_non_tuple : forall E st ord v, is_tuple_v fo v = false ->
+      forall f w, eval_imp fo std_imports f [] (ctx_gen fo E st ord [(b "arg", v)]) assert_tuple_call <> Ok w.
+  Proof. exact (std_assert_tuple_other_never_ok fo). Qed.
+
+  (* tuples.ops{tpl=t}: fields() / values() / iter() are the names, the values and the [name, value] pairs of t in order *)
+  Theorem tuples_ops_fields_is_names : forall E st ord fs,
+      exists f, eval_imp fo std_imports f [] (ctx_gen fo E st ord [(b "arg", VTuple fo fs)]) (meth0 tops_of_arg "fields")
+                = Ok (VList fo (map (fun kv => VStr fo (fst kv)) fs)).
+  Proof. exact (std_tuples_ops_fields fo). Qed.
+
+  Theorem tuples_ops_values_is_values : forall E st ord fs,
+      exists f, eval_imp fo std_imports f [] (ctx_gen fo E st ord [(b "arg", VTuple fo fs)]) (meth0 tops_of_arg "values")
+                = Ok (VList fo (map snd fs)).
+  Proof. exact (std_tuples_ops_values fo). Qed.
+
+  Theorem tuples_ops_iter_is_pairs : forall E st ord fs,
+      exists f, eval_imp fo std_imports f [] (ctx_gen fo E st ord [(b "arg", VTuple fo fs)]) (meth0 tops_of_arg "iter")
+                = Ok (VList fo (map (fun kv => VList fo [VStr fo (fst kv); snd kv]) fs)).
+  Proof. exact (std_tuples_ops_iter fo). Qed.
+
+  (* lists.ops{list=l}: len, list, head(), tail().list, reverse().list *)
+  Theorem lists_ops_len_is_length : forall E st ord l, fits (Z.of_nat (List.length l)) ->
+      exists f, eval_imp fo std_imports f [] (ctx_gen fo E st ord [(b "arg", VList fo l)]) (fld lops_of_arg "len")
+                = Ok (VInt fo (Z.of_nat (List.length l))).
+  Proof. exact (std_lists_ops_len fo). Qed.
+
+  Theorem lists_ops_list_is_the_list : forall E st ord l, fits (Z.of_nat (List.length l)) ->
+      exists f, eval_imp fo std_imports f [] (ctx_gen fo E st ord [(b "arg", VList fo l)]) (fld lops_of_arg "list") = Ok (VList fo l).
+  Proof. exact (std_lists_ops_list fo). Qed.
+
+  Theorem lists_ops_head_is_first : forall E st ord l, fits (Z.of_nat (List.length l)) ->
+      exists f, eval_imp fo std_imports f [] (ctx_gen fo E st ord [(b "arg", VList fo l)]) (meth0 lops_of_arg "head")
+                = Ok (VList fo (match l with [] => [] | x :: _ => [x] end)).
+  Proof. exact (std_lists_ops_head fo). Qed.
+
+  Theorem lists_ops_tail_is_rest : forall E st ord l, fits (Z.of_nat (List.length l)) ->
+      exists f, eval_imp fo std_imports f [] (ctx_gen fo E st ord [(b "arg", VList fo l)]) (fld (meth0 lops_of_arg "tail") "list")
+                = Ok (VList fo (tl l)).
+  Proof. exact (std_lists_ops_tail_list fo). Qed.
+
+  Theorem lists_ops_reverse_is_rev : forall E st ord l, fits (Z.of_nat (List.length l)) ->
+      exists f, eval_imp fo std_imports f [] (ctx_gen fo E st ord [(b "arg", VList fo l)]) (fld (meth0 lops_of_arg "reverse") "list")
+                = Ok (VList fo (rev l)).
+  Proof. exact (std_lists_ops_reverse_list fo). Qed.
 
   (* finding (documented, both builds fail or misbehave): the third guard of slice lets end = len through *)
   Theorem slice_end_equal_length_refuted : forall E ord,
